@@ -171,7 +171,7 @@ def ruleMonthOrdinal(ts: datetime, m: RegexMatch) -> Time:
     return Time(month=int(m.match.group("month")))
 
 
-@rule(r"(?<!\d|\.)(?P<day>(?&_day))\s*(?:st|nd|rd|th|s?ten|ter)")
+@rule(r"(?<!\d|\.)(?P<day>(?&_day))\s*(?:st|nd|rd|th|s?ten|ter)(?![^\W\d_])")
 # a "[0-31]" followed by a th/st
 def ruleDOM2(ts: datetime, m: RegexMatch) -> Time:
     return Time(day=int(m.match.group("day")))
@@ -382,7 +382,7 @@ def ruleLatentPOD(ts: datetime, pod: Time) -> Time:
 @rule(
     r"(?<!\d|\.)(?P<day>(?&_day))[\./]" # removed \-
     r"((?P<month>(?&_month))|(?P<named_month>({})))\.?"
-    r"(?!\d|am|\s*pm)".format(_rule_months)
+    r"(?!\d|(am|\s*pm)(?![^\W\d_]))".format(_rule_months)
 )
 # do not allow dd.ddam, dd.ddpm, but allow dd.dd am - e.g. in the German
 # "13.06 am Nachmittag"
@@ -399,7 +399,7 @@ def ruleDDMM(ts: datetime, m: RegexMatch) -> Time:
 @rule(
     r"(?<!\d|\.)((?P<month>(?&_month))|(?P<named_month>({})))[/\-]"
     r"(?P<day>(?&_day))"
-    r"(?!\d|am|\s*pm)".format(_rule_months)
+    r"(?!\d|(am|\s*pm)(?![^\W\d_]))".format(_rule_months)
 )
 def ruleMMDD(ts: datetime, m: RegexMatch) -> Time:
     if m.match.group("month"):
@@ -475,7 +475,7 @@ def _maybe_apply_am_pm(t: Time, ampm_match: str) -> Time:
     # match hhmm
     r"(?<!\d|\.)(?P<hour>(?:[01]\d)|(?:2[0-3]))(?P<minute>(?&_minute))"
     r"\s*((?P<clock>uhr|h)\b)?"  # optional uhr (a whole word, not the h of "heute")
-    r"\s*(?P<ampm>\s*[ap]\.?m\.?)?(?!\d)"  # optional am/pm
+    r"\s*(?P<ampm>\s*[ap]\.?m\.?(?![^\W\d_]))?(?!\d)"  # optional am/pm
 )
 def ruleHHMMmilitary(ts: datetime, m: RegexMatch) -> Optional[Time]:
     t = Time(hour=int(m.match.group("hour")), minute=int(m.match.group("minute") or 0))
@@ -493,7 +493,7 @@ def ruleHHMMmilitary(ts: datetime, m: RegexMatch) -> Optional[Time]:
     r"((?P<sep>:|uhr|h|\.|\s+uhr\s+(?=(?&_minute)(?![\d.:]|\s*({}))))"
     r"(?P<minute>(?&_minute)))?"
     r"\s*((?P<clock>uhr|h)\b)?"  # We match uhr with no minute (a whole word)
-    r"(?P<ampm>\s*[ap]\.?m\.?)?"  # AM PM
+    r"(?P<ampm>\s*[ap]\.?m\.?(?![^\W\d_]))?"  # AM PM (a whole word)
     r"(?!\d)".format("|".join(expr for _, expr in _months))
 )
 def ruleHHMM(ts: datetime, m: RegexMatch) -> Time:
